@@ -6,10 +6,13 @@ Require Import Raft.Quorum Raft.QuorumProofs Raft.RaftModel Raft.RaftSys Raft.Ra
 Import ListNotations.
 
 Section Inv.
-  Variables c0 c1 : list nat.
+  (* F = the family of (joint) configurations (incoming voters, outgoing voters) that nodes may
+     use for their decisions.  With fixed membership it is the singleton of the configuration. *)
+  Variable F : list (list nat * list nat).
 
-  (* "the nodes satisfying p contain a quorum" for the fixed (joint) configuration *)
-  Definition Qr (p : nat -> bool) : Prop := joint_sat c0 c1 p.
+  (* "the nodes satisfying p contain a quorum of some configuration of the family" *)
+  Definition Qr (p : nat -> bool) : Prop :=
+    exists cfg, In cfg F /\ joint_sat (fst cfg) (snd cfg) p.
 
   Definition sorted_terms (l : elog) : Prop :=
     forall i j, 1 <= i -> i <= j -> j <= length l -> term_at l i <= term_at l j.
